@@ -119,7 +119,7 @@ PROPS = {
                             "C06_get_for_package", "C06_excluded", "C06_not_excluded",
                             "C06_no_cutoff_no_date_filter", "C06_error_flag", "C06_cutoff_strict",
                             "C06_no_creation_date_is_old", "C06_spec_okb_correct",
-                            "C06_order_free_equal_rank_refuted"],
+                            "C06_order_free_equal_rank_refuted", "C06_registry_lockfile_respected"],
         "rule": ("selection-function level, direct calls to the public deno_graph::packages API. (a) EVERY registry "
                  "info made of <= 3 of the versions {0.9.0, 1.0.0, 1.1.0, 2.0.0-beta.1, 2.0.0}, each yanked or not and "
                  "created never/before/at/after the cutoff (5801 infos), x 3 option sets (no date / date / date with "
@@ -136,15 +136,15 @@ PROPS = {
                  "date on/off; (e) the free function resolve_version on explicit sequences with repeats. "
                  "Version::cmp enters as a dense rank (checked to be a total preorder), VersionReq::matches as a "
                  "matrix. non-trivial = case with at least two different outcome classes (unyanked / yanked / dated "
-                 "error / plain error; cutoff in force / not; some / none)." + REG_TEXT + " Version flavour: prefer_cached in 50%, stale package documents in 30%"),
+                 "error / plain error; cutoff in force / not; some / none)." + REG_TEXT + " Version flavour: prefer_cached in 50%, stale package documents in 30%, a graph filled from a lockfile (fill_from_lockfile package specifiers: listed, unlisted and never-published versions, requirements they do or do not satisfy) in 45% (12% in the other registry streams); on these the extracted model also judges that every resolved requirement is mapped to a version not below the highest lockfile-selected version of its package that satisfies it"),
         "assumptions": [
             "Version::cmp and VersionReq::matches enter the model as data computed by deno_semver on the case's versions",
-            "graph-level resolution (resolve_jsr_nv with versions already in the graph, cached-manifest probe incl. memoisation, tag rejection, used-yanked bookkeeping, restart on a stale package document) is decided per case by the registry stream against Model/Jsr.v; lockfile seeding of selections and date cut-offs are not in that stream",
+            "graph-level resolution (resolve_jsr_nv with versions already in the graph, cached-manifest probe incl. memoisation, tag rejection, used-yanked bookkeeping, restart on a stale package document) is decided per case by the registry stream against Model/Jsr.v, lockfile-seeded selections included (they are honoured by every build, restarts included: C06_registry_lockfile_respected; F-C06b, repaired); date cut-offs are not in that stream",
             "the cutoff comparison follows the code (created < cutoff); the boundary is not reported as a violation (DESIGN.md C06)",
             "known finding F-C06a (registry versions that differ in build metadata only: the pick depends on HashMap iteration order) is reported as KNOWN-FINDING",
         ],
-        "partial": ["selection function only; order independence is proved for version sets that Version::cmp separates, "
-                    "the unrestricted statement is refuted (F-C06a)"],
+        "partial": ["selection function, plus at graph level the lockfile theorem and the table theorem (mapped versions satisfy their requirements, C07_registry_table); order independence is proved for version sets that Version::cmp separates, "
+                    "the unrestricted statement is refuted (F-C06a); the remaining graph-level behaviour (probes, yanked bookkeeping, restart) per case"],
     },
     "C01": {
         "harness": "c01",
